@@ -89,12 +89,18 @@ package protocol
 //@   ghostset after append#3: qk = qk + 1
 //@   ghostset after append#4: qk = qk + 1
 //@   ghostset after append#5: qk = qk + 1
+//@   assert @C17 before append#1: old(isArgEncoding(src)) && !sameArray(old(dst), src) && 0 <= qk && qk < qn && i == qpos[qk] ==> false
+//@   assert @C17 before append#2: old(isArgEncoding(src)) && !sameArray(old(dst), src) && 0 <= qk && qk < qn && i == qpos[qk] ==> false
+//@   assert @C17 before append#3: old(isArgEncoding(src)) && !sameArray(old(dst), src) && 0 <= qk && qk < qn && i == qpos[qk] ==> escArg(qx[qk]) && qx[qk] != ' ' && x1 == qx[qk] / 16 && x2 == qx[qk] % 16 && qpos[qk+1] == i + 3
+//@   assert @C17 before append#4: old(isArgEncoding(src)) && !sameArray(old(dst), src) && 0 <= qk && qk < qn && i == qpos[qk] ==> qx[qk] == ' ' && qpos[qk+1] == i + 1
+//@   assert @C17 before append#5: old(isArgEncoding(src)) && !sameArray(old(dst), src) && 0 <= qk && qk < qn && i == qpos[qk] ==> qx[qk] == c && qpos[qk+1] == i + 1
 //@   ensures extends(r, dst) && spareOnly(dst)
 //@   top-ensures @C17 old(isArgEncoding(src)) && !sameArray(dst, src) ==> len(r) == len(dst) + qn && forall(k, 0, qn, r[len(dst) + k] == qx[k])
 //@   loop 0:
 //@     invariant 0 <= i && i <= len(src)
 //@     invariant extends(dst, old(dst)) && spareOnly(old(dst))
 //@     invariant @C17 old(isArgEncoding(src)) && !sameArray(old(dst), src) ==> 0 <= qk && qk <= qn && i == qpos[qk] && len(dst) == len(old(dst)) + qk && forall(j, 0, qk, dst[len(old(dst)) + j] == qx[j])
+//@     invariant @C17 old(isArgEncoding(src)) && !sameArray(old(dst), src) ==> isArgEncoding(src)
 
 //@ func decodeCookieArg(dst, src, skipQuotes) r
 //@   props C03
